@@ -98,6 +98,28 @@ pub fn evaluate(prog: &asp::Program, mode: Mode, limit: usize, rich: bool, ws: &
             .push("tau* did not return one formula per rule".into());
         return out;
     }
+    // a translation of a program is a set of sentences: a free variable in the output is reported as
+    // such (it used to surface only as a panic of the evaluator on the unbound variable)
+    let mut open: Vec<(String, usize, Value)> = vec![];
+    let mut note_open = |what: &str, th: &fol::Theory| {
+        for (ri, f) in th.formulas.iter().enumerate() {
+            let fv = f.free_variables();
+            if !fv.is_empty() {
+                open.push((format!("{what}_output_not_closed"), ri, json!({"formula": f.to_string(), "free_variables": fv.iter().map(|v| v.to_string()).collect::<Vec<_>>()})));
+            }
+        }
+    };
+    note_open("tau_star", &tau);
+    if let Some(n) = &nat {
+        note_open("natural", n);
+    }
+    if let Some(m) = &mu {
+        note_open("mu", m);
+    }
+    if !open.is_empty() {
+        out.diffs = ws.iter().map(|_| open.clone()).collect();
+        return out;
+    }
     for (wi, &w) in ws.iter().enumerate() {
         let mut diffs = vec![];
         let slice = slice_for(w, &syms);
